@@ -649,7 +649,7 @@ pub fn judge_exec(id: &str, sc: &Scenario, stats: &mut ExecStats) -> (Judged, Ru
                         let mut orig_how = acts_o.get(ai).and_then(|a| a.3.clone());
                         // a trap that propagated out of a callee is not this function's own
                         // `unreachable`: the event before our Leave is then the callee's Leave(Trap)
-                        if let (Some(LeaveHow::Trap(Trap::Unreachable)), Some(a)) = (&orig_how, acts_o.get(ai)) {
+                        if let (Some(LeaveHow::Trap(Trap::Unreachable | Trap::Exception)), Some(a)) = (&orig_how, acts_o.get(ai)) {
                             if a.2 > 0 && matches!(o.trace.get(a.2 - 1), Some(Ev::Leave(_, LeaveHow::Trap(_)))) {
                                 orig_how = Some(LeaveHow::Trap(Trap::Depth)); // "other trap": no timing rule
                             }
@@ -697,13 +697,14 @@ pub fn judge_exec(id: &str, sc: &Scenario, stats: &mut ExecStats) -> (Judged, Ru
                             };
                             let verdict = match &orig_how {
                                 Some(LeaveHow::Normal) => n == 1 && last_is_probe_run,
-                                Some(LeaveHow::Trap(Trap::Unreachable)) => n == 1 && last_is_probe_run,
+                                Some(LeaveHow::Trap(Trap::Unreachable | Trap::Exception)) => n == 1 && last_is_probe_run,
                                 _ => n <= 1,
                             };
                             if !verdict {
                                 let how = match &orig_how {
                                     Some(LeaveHow::Normal) => "normal",
                                     Some(LeaveHow::Trap(Trap::Unreachable)) => "unreachable",
+                                    Some(LeaveHow::Trap(Trap::Exception)) => "throw",
                                     _ => "other",
                                 };
                                 push(
